@@ -180,7 +180,6 @@ type exec struct {
 	cmu    sync.Mutex
 	cdone  bool
 	cbegun bool
-	bodies sync.WaitGroup
 	inBody int32
 	nostamp bool
 	col     *vt.Collector
@@ -269,8 +268,8 @@ func sleepUs(us int) {
 func (x *exec) body(j int) func(context.Context) error {
 	rs := &x.rs
 	return func(ctx context.Context) error {
-		x.bodies.Add(1)
-		defer x.bodies.Done()
+		atomic.AddInt32(&x.inBody, 1)
+		defer atomic.AddInt32(&x.inBody, -1)
 		if !x.nostamp {
 			note := ""
 			if ctx.Value(ctxKey{}) != "marker" {
@@ -419,8 +418,11 @@ func execRun(rs RunSpec, log *vt.APILog, col *vt.Collector, nostamp bool, deadli
 	}
 	// Quiescence: bodies that were started run to completion (none blocks),
 	// then every scheduler goroutine has to go away.
-	x.bodies.Wait()
+	// (A body may still start after Wait has returned, so this is a poll, not a WaitGroup.)
 	left := vt.WaitNoSchedulerGoroutines(3 * time.Second)
+	for i := 0; i < 3000 && atomic.LoadInt32(&x.inBody) > 0; i++ {
+		time.Sleep(time.Millisecond)
+	}
 	if len(left) > 0 {
 		stuck, gs := vt.ConfirmStuck(vt.SchedulerGoroutines, time.Second)
 		if len(gs) > 0 {
